@@ -50,12 +50,49 @@ THE SUBSET.
               `.unwrap()`), `.unwrap_or(d)` on an Option of an integer-represented
               type (`opt.getD d`; `d` is evaluated first, as in Rust), `.is_some()/.is_none()`, `checked_add/sub/mul`,
               `div_euclid/rem_euclid`, `abs`, `debug_assert!/assert!(…)`, `debug_assert_eq!/…_ne!`,
-              `panic!/unreachable!`.
-  refused     everything else, in particular: functions with type parameters of their own (`fn f<T>`), generic
+              `panic!/unreachable!`; `Result<T, E>` values (see RESULT); the std type `core::time::Duration` (see
+              BUILT-IN STD ITEMS).
+  refused     everything else, in particular: functions with type parameters of their own (`fn f<T>`) other than free
+              functions instantiated by a call (see GENERIC FREE FUNCTIONS), generic
               enums (`LocalResult<T>`), closures, loops, `&mut` borrows and `&mut` parameters other than the receiver,
-              floats, chars / strings as values, `Result`, slices, iterators, trait objects, struct patterns, match
+              floats, chars / strings as values, slices, iterators, trait objects, struct patterns, match
               guards, wrapping_/overflowing_/saturating_ methods, functions without a result (other than
-              `&mut self` ones), turbofish paths.
+              `&mut self` ones), turbofish paths, `?` that converts the error type.
+
+RESULT.  `Result<T, E>` is `GenRt.Result T' E'` (`.ok v` | `.err e`; T', E' the Lean types of T, E: a field-less error
+enum is its discriminant, a unit-like error struct such as `OutOfRangeError(())` is `Unit`).  `Ok(e)` / `Err(e)`,
+`match r { Ok(p) => …, Err(p) => …, _ => … }` (read as the Lean `match`; the inner patterns are bindings, `_` or
+irrefutable), `r?` in a function whose declared error type is the error type of `r` (then the `From` conversion that
+`?` applies is the identity of `impl<T> From<T> for T`; any other `?` is refused): `Ok(v)` continues with `v`, `Err(x)`
+returns `Err(x)`; `.unwrap()` / `.expect("…")` (panic on `Err`), `.is_ok()`, `.is_err()`, `.ok()`.  Nothing else
+(`map_err`, `and_then`, `unwrap_or`, … on a Result are refused).
+
+BUILT-IN STD ITEMS.  `core::time::Duration` — only in a file with a top-level `use core::time::Duration;` (or
+`std::time::Duration`), and only when the translated files define no type of that name — is the Lean structure
+`core_time.Duration` with the fields `secs : u64`, `nanos : u32` (std's documented representation, invariant
+`nanos < 10^9`; the fields are private: field access and struct literals are refused).  Its functions `Duration::new`
+(std's text: nanoseconds of a second or more are carried into the seconds with `checked_add(…).expect(…)`, i.e. a
+panic when the carry leaves `u64`), `as_secs`, `subsec_nanos` are written into Gen.lean from the table BUILTIN_FNS of
+this file (trusted text, like GenRt.lean); every other function of the type is refused.
+
+GENERIC FREE FUNCTIONS, OPERATORS ON STRUCTS, `cmp`, `ok_or`.  A call `f(args)` of a free function with type parameters
+of its own (`fn duration_round<T>(naive: NaiveDateTime, original: T, duration: TimeDelta)`) is read at the
+instantiation the call fixes: every type parameter must be the declared type of an argument (`original: T`) and is
+bound to the (named) type of that argument; the body is translated afresh for it (`round.duration_round_NaiveDateTime`,
+`round.duration_round_DateTime_FixedOffset`); its bounds / `where` clause are not evaluated (rustc has checked them
+for that call); such a function cannot be a target by itself.  `a + b` / `a - b` with `a` of a struct type is the
+`add` / `sub` of the one `impl Add<type of b> for type of a` (also of a generic impl read at the instantiation);
+none or several: refused.  `x.cmp(&y)` on integers is `core::cmp::Ordering` (built in like `Duration`, needs the
+`use core::cmp::Ordering;`; discriminants `Less = -1, Equal = 0, Greater = 1`), matched like any field-less enum.
+`opt.ok_or(e)` is `GenRt.Result.okOr opt e` (`e` evaluated eagerly, as in Rust).  `Self::Err` inside
+`impl Trait for T` is the `type Err = …;` of that very impl (two impls of different traits may each define one), inside
+`impl<Tz> Trait for DateTime<Tz>` read at an instantiation that of the one impl of the trait covering it.
+
+IMPLS OF ONE TRAIT WITH DIFFERENT ARGUMENTS (`impl Add<TimeDelta> for NaiveTime`, `impl Add<Duration> for NaiveTime`,
+`impl Add<FixedOffset> for NaiveTime`; `impl<Tz: TimeZone> Add<Duration> for DateTime<Tz>`).  The items keep the
+arguments of the trait; a target names them (`(file, "NaiveTime", "add", "Add<Duration>")`,
+`(file, "DateTime<Utc>", "add", "Add<Duration>")`), and the definition is then called `….Add_Duration.add`.  A call
+by method name (`a.add(b)`) stays refused when more than one impl has the method.
 
 GENERIC IMPLS (read at a concrete instantiation; nothing is translated "for all Tz").
   types       a generic struct `struct DateTime<Tz: TimeZone> { datetime: NaiveDateTime, offset: Tz::Offset }` is not
@@ -84,7 +121,8 @@ GENERIC IMPLS (read at a concrete instantiation; nothing is translated "for all 
               the concrete type an inherent method of the same name would win, a call on a type that is the image of
               a parameter of the enclosing function is refused when the name is both an inherent and a trait method.
   impls with a generic TRAIT only (`impl Mul<i32> for TimeDelta`): ordinary impls, filed under the trait's name; two
-              impls of one trait for one type (`Mul<i32>`, `Mul<i64>`) make the name ambiguous, which is refused.
+              impls of one trait for one type (`Mul<i32>`, `Mul<i64>`) make the name ambiguous for a call, which is
+              refused (a target can name the argument, see IMPLS OF ONE TRAIT WITH DIFFERENT ARGUMENTS).
 
 MUTABLE RECEIVERS.  `fn f(&mut self, args)` without a result is read as the function from the OLD value of `*self`
 (and the arguments) to the NEW value of `*self`: `self` is a re-bound local, written only by `*self = e;` (an
@@ -443,6 +481,8 @@ class Parser:
             return ("bool",)
         if name == "Option" and len(args) == 1:
             return ("opt", args[0])
+        if name == "Result" and len(args) == 2:
+            return ("res", args[0], args[1])
         if name == "Self" and len(segs) == 1:
             return ("self",)
         if len(segs) == 1 and name in self.tparams and not args:
@@ -844,11 +884,15 @@ class FnItem:
         self.mut_self = False  # `&mut self` receiver (see parse)
         self.tsubst = {}       # type parameter of the enclosing generic impl -> the concrete type it is read at
         self.gimpl = None      # header of the enclosing generic impl (see Crate.impl_header)
+        self.targs = ()        # type arguments of the trait of `impl Trait<args> for Type` (`Add<Duration>`)
+        self.gparams = []      # names of the function's own type parameters (`fn f<T>`)
+        self.ginst = None      # for an instantiation of a generic function: the Lean name suffix (`NaiveDateTime`)
 
     def rust_path(self):
         o = self.owner or ""
         if self.trait and self.owner:
-            o = f"<{self.owner} as {self.trait}>"
+            ta = "<" + ", ".join(show_type(a) for a in self.targs) + ">" if self.targs else ""
+            o = f"<{self.owner} as {self.trait}{ta}>"
         elif self.trait:
             o = self.trait
         return (o + "::" if o else "") + self.name
@@ -899,7 +943,15 @@ class FnItem:
                 raise Refuse("`&mut self` receiver")
             return (params, has_self, ret)
         if p.at("where"):
-            raise Refuse("where clause")
+            if self.ginst is None:
+                raise Refuse("where clause")
+            while not (p.at("{") or p.peek().k == "eof"):      # bounds of an instantiated generic function: rustc
+                if p.at("<"):                                  # has checked them for the call that names it
+                    p.skip_generics()
+                elif p.at("(") or p.at("["):
+                    p.skip_balanced()
+                else:
+                    p.i += 1
         if not p.at("{"):
             raise Refuse("function without a body")
         body = p.parse_block()
@@ -916,6 +968,44 @@ class FnItem:
         self.mut_self = mut_self
         self.parsed = (params, has_self, ret, body)
         return self.parsed
+
+
+class BuiltinItem(FnItem):
+    """a function of the standard library that is built into the translator (its Lean definition is part of the
+    translator's trusted text, written into Gen.lean like a translated one): see BUILTIN_FNS"""
+
+    def __init__(self, owner, name, spec):
+        FnItem.__init__(self, spec["mod"], owner, None, name, [], 0, False, "std")
+        self.spec = spec
+        self.idents = set()
+
+    def rust_path(self):
+        return f"core::time::{self.owner}::{self.name}"
+
+
+U64, U32 = ("int", "u64"), ("int", "u32")
+DUR = ("adt", "Duration")
+# `core::time::Duration` is the pair (secs: u64, nanos: u32 < 10^9) (its documented representation); `new` is std's
+#   if nanos < NANOS_PER_SEC { Duration { secs, nanos } } else {
+#       let secs = secs.checked_add((nanos / NANOS_PER_SEC) as u64).expect("overflow in Duration::new");
+#       Duration { secs, nanos: nanos % NANOS_PER_SEC } }
+BUILTIN_ADTS = {
+    "Duration": dict(kind="struct", fields=[("secs", U64), ("nanos", U32)], mod="core_time", builtin=True),
+    # `core::cmp::Ordering { Less = -1, Equal = 0, Greater = 1 }` (its declared discriminants)
+    "Ordering": dict(kind="enum", variants=[("Less", -1), ("Equal", 0), ("Greater", 1)], mod="core_cmp", builtin=True),
+}
+BUILTIN_FNS = {
+    ("Duration", "new"): dict(
+        mod="core_time", params=[("secs", U64), ("nanos", U32)], ret=DUR, has_self=False, impure=True,
+        body="if nanos < 1000000000 then .ok (core_time.Duration.mk secs nanos)\n"
+             "else\n"
+             "Res.bind (ckU64 (secs + nanos / 1000000000)) fun secs =>\n"
+             ".ok (core_time.Duration.mk secs (nanos % 1000000000))"),
+    ("Duration", "as_secs"): dict(
+        mod="core_time", params=[("self", DUR)], ret=U64, has_self=True, impure=False, body="self.secs"),
+    ("Duration", "subsec_nanos"): dict(
+        mod="core_time", params=[("self", DUR)], ret=U32, has_self=True, impure=False, body="self.nanos"),
+}
 
 
 class ConstItem(FnItem):
@@ -947,6 +1037,9 @@ class Crate:
         self.impls = []     # (trait, type) of every non-generic `impl Trait for Type`
         self.traits = set() # names of the traits declared in the translated files
         self.decls = {}     # (trait, fn name) -> [FnItem] of the bodiless method declarations of a trait
+        self.std_duration = set()   # (module, Name) for a top-level `use core::time::Duration;` / `use core::cmp::Ordering;`
+        self.assoc3 = {}            # (impl type, trait, associated type name) -> type
+        self.assoc_g = {}           # (base of a generic impl, trait, associated type name) -> [(impl header, type)]
 
     def scan_file(self, rel, mod, src):
         toks = lex(src)
@@ -1008,7 +1101,7 @@ class Crate:
             return None
         return dict(base=a[0], args=a[1], tname=b[0], targs=b[1], tparams=list(tparams))
 
-    def scan_items(self, p, rel, mod, owner, trait, top=False, gimpl=None):
+    def scan_items(self, p, rel, mod, owner, trait, top=False, gimpl=None, targs=()):
         while True:
             x = p.peek()
             if x.k == "eof":
@@ -1041,11 +1134,14 @@ class Crate:
                 p.i += 1
                 name = p.ident()
                 generic = False
+                fparams = []
                 if p.at("<"):
                     generic = True
-                    p.skip_generics()
+                    fparams = self.generic_params(p)
                 item = FnItem(mod, owner, trait, name, p.t, p.i, generic, rel)
+                item.gparams = fparams
                 item.gimpl = gimpl
+                item.targs = targs
                 while not (p.at("{") or p.at(";")):
                     if p.peek().k == "eof":
                         raise Refuse(f"{rel}: fn {name}: no body")
@@ -1244,12 +1340,14 @@ class Crate:
                     ids = [w for w in words if isinstance(w, str) and re.match(r"[A-Za-z_]\w*$", w)]
                     own = ids[-1] if ids and not generic_hdr else "<generic impl>"
                 gi = None
+                itargs = ()
                 if not is_trait and generic_hdr:
                     gi = self.impl_header(hdr, iparams)
                     if gi is not None and not gi["tparams"] and not gi["args"] and gi["tname"] and gi["base"] != "Self":
                         # `impl Mul<i32> for TimeDelta`: only the trait has arguments; filed like `impl Neg for …`
-                        # (two such impls of one trait give two candidates for a name, which is refused)
-                        own, trt, gi = gi["base"], gi["tname"], None
+                        # with the arguments kept on the items (two such impls of one trait give two candidates for
+                        # a name: a call by name is refused, a target / an operator names the argument)
+                        own, trt, itargs, gi = gi["base"], gi["tname"], tuple(gi["targs"]), None
                 if not is_trait and not generic_hdr and not cfg and own and trt:
                     self.impls.append((trt, own))
                 p.i += 1
@@ -1257,7 +1355,7 @@ class Crate:
                     p.i -= 1
                     p.skip_balanced()
                 else:
-                    self.scan_items(p, rel, mod, own, trt, gimpl=gi)
+                    self.scan_items(p, rel, mod, own, trt, gimpl=gi, targs=itargs)
                 continue
             if p.at("type") and p.peek(1).k == "id" and p.at("=", 2) and owner and not owner.startswith("<") \
                     and not cfg:
@@ -1266,7 +1364,31 @@ class Crate:
                 try:
                     ty = p.parse_type()
                     if p.at(";"):
-                        self.assoc[(owner, p.t[save + 1].v)] = ty
+                        if (owner, p.t[save + 1].v) in self.assoc and self.assoc[(owner, p.t[save + 1].v)] != ty:
+                            self.assoc[(owner, p.t[save + 1].v)] = ("ambiguous",)
+                        else:
+                            self.assoc[(owner, p.t[save + 1].v)] = ty
+                        self.assoc3[(owner, trait, p.t[save + 1].v)] = ty
+                except Refuse:
+                    pass
+                p.i = save          # skipped below like any other item
+            if p.at("use") and owner is None and not cfg:
+                j = p.i
+                while not (p.at(";") or p.peek().k == "eof"):
+                    p.i += 1
+                w = [t.v for t in p.t[j + 1:p.i]]
+                if len(w) == 5 and w[0] in ("core", "std") and w[1] == w[3] == "::" \
+                        and (w[2], w[4]) in (("time", "Duration"), ("cmp", "Ordering")):
+                    self.std_duration.add((mod, w[4]))
+                p.i = j             # skipped below like any other item
+            if p.at("type") and p.peek(1).k == "id" and p.at("=", 2) and gimpl is not None and gimpl["tname"] and not cfg:
+                save = p.i
+                p.i += 3
+                try:
+                    q = Parser(p.t, p.i, gimpl["tparams"])
+                    ty = q.parse_type()
+                    if q.at(";"):
+                        self.assoc_g.setdefault((gimpl["base"], gimpl["tname"], p.t[save + 1].v), []).append((gimpl, ty))
                 except Refuse:
                     pass
                 p.i = save          # skipped below like any other item
@@ -1328,6 +1450,8 @@ class Types:
             return None
         if t[0] == "opt":
             return ("opt", self.res(t[1]))
+        if t[0] == "res":
+            return ("res", self.res(t[1]), self.res(t[2]))
         if t[0] == "tuple":
             return ("tuple", tuple(self.res(x) for x in t[1]))
         if t[0] == "array":
@@ -1343,6 +1467,8 @@ class Types:
             return ("int", "i32")
         if t[0] == "opt":
             return ("opt", self.final(t[1]))
+        if t[0] == "res":
+            return ("res", self.final(t[1]), self.final(t[2]))
         if t[0] == "tuple":
             return ("tuple", tuple(self.final(x) for x in t[1]))
         if t[0] == "array":
@@ -1370,6 +1496,8 @@ class Types:
             return self.unify(b, a, what)
         if a[0] == "opt" and b[0] == "opt":
             return ("opt", self.unify(a[1], b[1], what))
+        if a[0] == "res" and b[0] == "res":
+            return ("res", self.unify(a[1], b[1], what), self.unify(a[2], b[2], what))
         if a[0] == "tuple" and b[0] == "tuple" and len(a[1]) == len(b[1]):
             return ("tuple", tuple(self.unify(x, y, what) for x, y in zip(a[1], b[1])))
         if a[0] == "array" and b[0] == "array":
@@ -1386,6 +1514,8 @@ def show_type(t):
         return t[1]
     if t[0] == "opt":
         return "Option<" + show_type(t[1]) + ">"
+    if t[0] == "res":
+        return "Result<" + show_type(t[1]) + ", " + show_type(t[2]) + ">"
     if t[0] == "tuple":
         return "(" + ", ".join(show_type(x) for x in t[1]) + ")"
     if t[0] == "array":
@@ -1411,7 +1541,7 @@ class FnFront:
     def norm(self, t):
         """resolve `Self`, references, arrays-by-reference; reject what is outside the subset"""
         if t[0] in ("tparam", "assoc", "gen"):
-            t = self.gen.subst_type(t, self.item.tsubst, self.item.owner)
+            t = self.gen.subst_type(t, self.item.tsubst, self.item.owner, self.item.trait)
         if t[0] == "self":
             if not self.item.owner or self.item.owner.startswith("<"):
                 raise Refuse("`Self` without a concrete impl type")
@@ -1420,12 +1550,16 @@ class FnFront:
             raise Refuse("`&mut` type")
         if t[0] == "opt":
             return ("opt", self.norm(t[1]))
+        if t[0] == "res":
+            return ("res", self.norm(t[1]), self.norm(t[2]))
         if t[0] == "tuple":
             return ("tuple", tuple(self.norm(x) for x in t[1]))
         if t[0] == "array":
             return ("array", self.norm(t[1]), None)
         if t[0] == "adt":
             a = self.crate.adts.get(t[1])
+            if a is not None and a.get("builtin") and (self.item.mod, t[1]) not in self.crate.std_duration:
+                raise Refuse(f"type `{t[1]}` is not the std type of that name in this file (no such `use`)")
             if a is None:
                 raise Refuse(f"type `{t[1]}` is not defined in the translated files")
             if a["kind"] in ("opaque", "tstruct"):
@@ -1446,6 +1580,8 @@ class FnFront:
         if t[0] != "adt":
             raise Refuse(f"field `.{name}` of {show_type(t)}")
         a = self.adt(t)
+        if a.get("builtin"):
+            raise Refuse(f"field `.{name}` of the std type {t[1]} (private)")
         if a["kind"] == "newtype":
             if name != "0":
                 raise Refuse(f"field `.{name}` of tuple struct {t[1]}")
@@ -1533,7 +1669,7 @@ class FnFront:
             rt, re_ = self.T.res(t), self.T.res(exp)
             if rt is not None and rt[0] == "tv" and re_ is not None and re_[0] in ("int", "tv"):
                 t = self.T.unify(t, exp)
-            elif rt is not None and rt[0] == "opt" and re_ is not None and re_[0] == "opt":
+            elif rt is not None and rt[0] in ("opt", "res") and re_ is not None and re_[0] == rt[0]:
                 try:
                     t = self.T.unify(t, exp)
                 except Refuse:
@@ -1573,7 +1709,7 @@ class FnFront:
                     for vn, d in a["variants"]:
                         if vn == segs[-1]:
                             e.res = ("variant", d)
-                            return ("adt", en)
+                            return self.norm(("adt", en)) if a.get("builtin") else ("adt", en)
                     raise Refuse(f"unknown variant {en}::{segs[-1]}")
             if len(segs) == 1 and self.crate.adts.get(segs[0], {}).get("kind") == "unit":
                 e.res = ("unit",)
@@ -1636,6 +1772,18 @@ class FnFront:
                 self.int_like(tr_, f"`{op}` amount")
                 return tl
             tl = self.infer(e.l, env, exp)
+            rl = T.res(tl)
+            if op in ("+", "-") and rl is not None and rl[0] == "adt":
+                # `a + b` on a struct: the `add` of the one `impl Add<type of b> for type of a`
+                rr = T.final(self.infer(e.r, env))
+                item = self.gen.resolve_op(rl[1], "Add" if op == "+" else "Sub", "add" if op == "+" else "sub", rr)
+                info = self.gen.fn_info(item)
+                if len(info.params) != 2 or info.mut_self:
+                    raise Refuse(f"operator `{op}`: unexpected signature of {item.rust_path()}")
+                T.unify(rl, info.params[0][1], f"(`{op}`)")
+                T.unify(rr, info.params[1][1], f"(`{op}`)")
+                e.res = ("opfn", info)
+                return info.ret
             tr_ = self.infer(e.r, env, tl if T.res(tl) is not None and T.res(tl)[0] != "tv" else exp)
             t = T.unify(tl, tr_, f"(`{op}`)")
             r = T.res(t)
@@ -1676,7 +1824,7 @@ class FnFront:
                 name = self.generic_by_expectation(name, exp, "struct literal")
             t = self.norm(("adt", name))
             a = self.adt(t)
-            if a["kind"] != "struct":
+            if a["kind"] != "struct" or a.get("builtin"):
                 raise Refuse(f"struct literal of {name}")
             want = [f for f, _ in a["fields"]]
             given = [f for f, _ in e.fields]
@@ -1727,8 +1875,18 @@ class FnFront:
             return NEVER
         if k == "try":
             t = T.res(self.infer(e.e, env))
+            if t is not None and t[0] == "res":
+                # `e?` on a Result: only when the error type of the function IS the error type of `e` (the `From`
+                # conversion `?` applies is then the identity of `impl<T> From<T> for T`)
+                rt = T.res(self.ret)
+                if rt[0] != "res":
+                    raise Refuse("`?` on a Result in a function that does not return Result")
+                if T.res(t[2]) is None or T.res(rt[2]) is None or T.res(t[2]) != T.res(rt[2]):
+                    raise Refuse("`?` that converts the error type (`From`)")
+                e.on_res = True
+                return t[1]
             if t is None or t[0] != "opt":
-                raise Refuse("`?` on a non-Option value")
+                raise Refuse("`?` on a value that is neither an Option nor a Result")
             if T.res(self.ret)[0] != "opt":
                 raise Refuse("`?` in a function that does not return Option")
             return t[1]
@@ -1839,6 +1997,11 @@ class FnFront:
                     raise Refuse("`Some(_)` pattern against a non-Option")
                 self.bind_pat(p.pats[0], r[1], env)
                 return
+            if p.path in (["Ok"], ["Err"]) and len(p.pats) == 1:
+                if r is None or r[0] != "res":
+                    raise Refuse(f"`{p.path[0]}(_)` pattern against a non-Result")
+                self.bind_pat(p.pats[0], r[1] if p.path == ["Ok"] else r[2], env)
+                return
             if r is not None and r[0] == "adt" and self.adt(r)["kind"] == "newtype" and p.path[-1] in (r[1], "Self") \
                     and len(p.pats) == 1:
                 self.bind_pat(p.pats[0], self.norm(self.adt(r)["field"]), env)
@@ -1861,8 +2024,16 @@ class FnFront:
             t = self.infer(e.args[0], env, x[1] if x is not None and x[0] == "opt" else None)
             e.res = ("some",)
             return ("opt", t)
-        if name in ("Ok", "Err") and len(segs) == 1:
-            raise Refuse("`Result` values")
+        if name in ("Ok", "Err") and len(segs) == 1 and len(e.args) == 1:
+            x = T.res(exp)
+            x = x if x is not None and x[0] == "res" else ("res", None, None)
+            if name == "Ok":
+                t = self.infer(e.args[0], env, x[1])
+                e.res = ("ok",)
+                return ("res", T.unify(t, x[1], "(Ok)") if x[1] is not None else t, x[2])
+            t = self.infer(e.args[0], env, x[2])
+            e.res = ("err",)
+            return ("res", x[1], T.unify(t, x[2], "(Err)") if x[2] is not None else t)
         if name == "expect" and len(e.args) == 2 and len(segs) <= 2 and segs[0] in ("expect", "crate"):
             t = T.res(self.infer(e.args[0], env, ("opt", exp) if exp is not None else None))
             if t is None or t[0] != "opt":
@@ -1889,6 +2060,8 @@ class FnFront:
             return self.norm(("adt", tn))
         if len(segs) == 1:
             item = self.gen.resolve_fn(None, name, self.item)
+            if item.generic and item.gparams and item.owner is None:
+                item = self.instantiate_generic_fn(item, e, env)
         else:
             owner = self.item.owner if segs[-2] == "Self" else segs[-2]
             if owner in INT_TYPES or owner in NONZERO:
@@ -1911,6 +2084,35 @@ class FnFront:
             T.unify(self.infer(a_, env, pt), pt, f"(argument `{pn}` of {item.rust_path()})")
         e.res = ("fn", info)
         return info.ret
+
+    def instantiate_generic_fn(self, item, e, env):
+        """a call `f(args)` of a free function with type parameters of its own (`fn f<T>(naive: NaiveDateTime,
+        original: T, …)`): each parameter must be the declared type of at least one argument position (`x: T`) and
+        is bound to the type of that argument — a named type; the function is then read at that instantiation
+        (bounds and `where` clauses are not evaluated: rustc has checked them for this call)."""
+        probe = FnItem(item.mod, None, None, item.name, item.toks, item.sig_i, False, item.rel)
+        probe.tsubst = dict.fromkeys(item.gparams)
+        params, has_self, _ret = probe.parse_sig()
+        if has_self or len(params) != len(e.args):
+            raise Refuse(f"call of the generic function {item.name}: argument count")
+        bind = {}
+        for (pat, pt), a_ in zip(params, e.args):
+            if pt[0] == "tparam":
+                at = self.T.final(self.infer(a_, env))
+                if at is None or at[0] != "adt":
+                    raise Refuse(f"generic function {item.name}: type parameter `{pt[1]}` bound to a non-struct type")
+                if bind.get(pt[1], at) != at:
+                    raise Refuse(f"generic function {item.name}: type parameter `{pt[1]}` bound to two types")
+                bind[pt[1]] = at
+        if set(item.gparams) - set(bind):
+            raise Refuse(f"generic function {item.name}: a type parameter is not the type of an argument")
+        key = ("ginst", id(item), tuple(sorted((k_, v[1]) for k_, v in bind.items())))
+        if key not in self.gen.cache:
+            ni = FnItem(item.mod, None, None, item.name, item.toks, item.sig_i, False, item.rel)
+            ni.tsubst = bind
+            ni.ginst = "_".join(lean_ident(bind[g][1]) for g in item.gparams)
+            self.gen.cache[key] = ni
+        return self.gen.cache[key]
 
     def infer_trait_call(self, e, env, exp, trait, name):
         """`Trait::f(args)`: the impl is chosen by `Self`, which is read off the first argument when `f` has a
@@ -1963,6 +2165,10 @@ class FnFront:
                 t = T.unify(tr_, self.infer(e.args[0], env, tr_), f"({name})")
                 e.res = ("euclid", name[:3])
                 return t
+            if name == "cmp" and len(e.args) == 1:
+                T.unify(tr_, self.infer(e.args[0], env, tr_), "(cmp)")
+                e.res = ("cmp",)
+                return self.norm(("adt", "Ordering"))
             if name == "abs" and not e.args:
                 e.res = ("abs",)
                 return tr_
@@ -1992,11 +2198,27 @@ class FnFront:
             if name == "expect" and len(e.args) == 1 and e.args[0].k == "str":
                 e.res = ("unwrap",)
                 return tr_[1]
+            if name == "ok_or" and len(e.args) == 1:
+                x = T.res(exp)
+                te = self.infer(e.args[0], env, x[2] if x is not None and x[0] == "res" else None)
+                e.res = ("ok_or",)
+                return ("res", tr_[1], te)
             if name == "unwrap_or" and len(e.args) == 1:
                 t = T.unify(tr_[1], self.infer(e.args[0], env, tr_[1]), "(unwrap_or)")
                 e.res = ("unwrap_or",)
                 return t
             raise Refuse(f"Option method `{name}` is outside the subset")
+        if tr_[0] == "res":
+            if name in ("is_ok", "is_err") and not e.args:
+                e.res = ("isres", name == "is_ok")
+                return BOOL
+            if (name == "unwrap" and not e.args) or (name == "expect" and len(e.args) == 1 and e.args[0].k == "str"):
+                e.res = ("unwrap_res",)
+                return tr_[1]
+            if name == "ok" and not e.args:
+                e.res = ("res_ok",)
+                return ("opt", tr_[1])
+            raise Refuse(f"Result method `{name}` is outside the subset")
         if tr_[0] == "adt":
             item = self.gen.resolve_fn(tr_[1], name, self.item, method=True)
             info = self.gen.fn_info(item)
@@ -2431,6 +2653,8 @@ class FnTrans:
                         return k(V(f"{aa.emb(51)} {lop} {bb.emb(51)}", 50, prop=True))
                     return self.tr(e.r, env, kc2)
                 return self.tr(e.l, env, kc)
+            if getattr(e, "res", None) is not None and e.res[0] == "opfn":
+                return self.tr_list([e.l, e.r], env, lambda vs: self.apply_fn(e.res[1], vs, k, hint))
             t = self.ty(e)
             return self.tr(e.l, env, lambda a: self.tr(e.r, env, lambda b: self.binop(op, a, b, t, k, hint)))
         if kd == "cast":
@@ -2500,6 +2724,10 @@ class FnTrans:
             return self.tr(e.e, env, self.kret())
         if kd in ("try", "macro") and (kd == "try" or e.name == "try_opt"):
             inner = e.e if kd == "try" else e.args[0]
+            if kd == "try" and getattr(e, "on_res", False):
+                # `e?` on a Result whose error type is the function's: `Err(x)` is returned as it is
+                return self.tr(inner, env, lambda v: self.match_res(
+                    v, hint, k, None, lambda x: self.ret(V(f"GenRt.Result.err {x.emb(100)}", 90))))
             return self.tr(inner, env, lambda v: self.match_opt(v, hint, k, self.ret_none()))
         if kd == "macro":
             if e.name in ("panic", "unreachable", "unimplemented", "todo"):
@@ -2561,6 +2789,15 @@ class FnTrans:
                 out.inner = v
                 return k(out)
             return self.tr(e.args[0], env, ks)
+        if r[0] in ("ok", "err"):
+            t = self.ty(e.args[0])
+
+            def kr(v):
+                v = self.val(v, t)
+                out = V(f"GenRt.Result.{r[0]} {v.emb(100)}", 90)
+                out.rinner = (r[0], v)
+                return k(out)
+            return self.tr(e.args[0], env, kr)
         if r[0] == "expect":
             return self.tr(e.args[0], env, lambda v: self.match_opt(v, hint, k, self.panic()))
         if r[0] == "ident":
@@ -2623,6 +2860,18 @@ class FnTrans:
                     return self.res_bind(f"GenRt.edivCk {lit_text(lo)} {lit_text(hi)} {a.emb(100)} {b.emb(100)}", k, hint)
                 return self.res_bind(f"GenRt.emodCk {lit_text(lo)} {a.emb(100)} {b.emb(100)}", k, hint)
             return self.tr(e.recv, env, lambda a: self.tr(e.args[0], env, lambda b: ke(a, b)))
+        if r[0] == "cmp":
+            # `a.cmp(&b)` on integers: `Ordering::Less = -1`, `Equal = 0`, `Greater = 1`
+            def kcmp(a, b):
+                if a.cval is not None and b.cval is not None:
+                    return k(vlit(-1 if a.cval < b.cval else 0 if a.cval == b.cval else 1))
+                return k(V(f"if {a.emb(51)} < {b.emb(51)} then -1 else if {a.emb(51)} = {b.emb(51)} then 0 else 1", 0))
+            return self.tr(e.recv, env, lambda a: self.tr(e.args[0], env, lambda b: kcmp(a, b)))
+        if r[0] == "ok_or":
+            # `opt.ok_or(err)`: the error value is evaluated first-come (eagerly, as an argument), then the choice
+            t = self.ty(e.args[0])
+            return self.tr(e.recv, env, lambda v: self.tr(e.args[0], env, lambda d: k(
+                V(f"GenRt.Result.okOr {v.emb(100)} {self.val(d, t).emb(100)}", 90))))
         if r[0] == "abs":
             t = self.ty(e)
             if not INT_TYPES[t[1]][1]:
@@ -2633,6 +2882,12 @@ class FnTrans:
             return self.tr(e.recv, env, lambda v: k(V(f"{v.emb(100)}.{'isSome' if r[1] else 'isNone'}", 100)))
         if r[0] == "unwrap":
             return self.tr(e.recv, env, lambda v: self.match_opt(v, hint, k, self.panic()))
+        if r[0] == "unwrap_res":
+            return self.tr(e.recv, env, lambda v: self.match_res(v, hint, k, "_", lambda x: self.panic()))
+        if r[0] == "isres":
+            return self.tr(e.recv, env, lambda v: k(V(f"{v.emb(100)}.{'isOk' if r[1] else 'isErr'}", 100)))
+        if r[0] == "res_ok":
+            return self.tr(e.recv, env, lambda v: k(V(f"{v.emb(100)}.toOption", 100)))
         if r[0] == "unwrap_or":
             # the default is evaluated (eagerly, as in Rust) after the receiver and before the choice
             t = self.ty(e)
@@ -2699,6 +2954,54 @@ class FnTrans:
             return f"(match {v.text} with\n| some {name} =>\n{ind(body)}\n{nb})"
         return f"(match {v.text} with\n| some {name} => {body}\n{nb})"
 
+    def match_res(self, v, ok_name, kok, err_name, kerr):
+        """`match v { Ok(x) => kok(x), Err(y) => kerr(y) }` on a Result value"""
+        ri = getattr(v, "rinner", None)
+        if ri is not None:
+            return kok(ri[1]) if ri[0] == "ok" else kerr(ri[1])
+        ok_name = ok_name or self.fresh()
+        err_name = err_name or self.fresh()
+        a, b = kok(V(ok_name)), kerr(V(err_name))
+        la = f"| .ok {ok_name} => {a}" if "\n" not in a else f"| .ok {ok_name} =>\n{ind(a)}"
+        lb = f"| .err {err_name} => {b}" if "\n" not in b else f"| .err {err_name} =>\n{ind(b)}"
+        return f"(match {v.text} with\n{la}\n{lb})"
+
+    def tr_match_res(self, e, env, k):
+        ok_arm = err_arm = None
+        for pat, _, body in e.arms:
+            if pat.k == "ptstruct" and pat.path == ["Ok"] and ok_arm is None:
+                ok_arm = (pat.pats[0], body)
+            elif pat.k == "ptstruct" and pat.path == ["Err"] and err_arm is None:
+                err_arm = (pat.pats[0], body)
+            elif pat.k == "pwild":
+                ok_arm = ok_arm or (N("pwild"), body)
+                err_arm = err_arm or (N("pwild"), body)
+            else:
+                raise Refuse("Result match with a pattern other than Ok(_) / Err(_) / _")
+        if ok_arm is None or err_arm is None:
+            raise Refuse("Result match without both cases")
+        st = self.ty(e.e)
+
+        def arm(inner, body, it):
+            """-> (name for the match binder or None, continuation of the bound value)"""
+            if inner.k == "pbind":
+                lean, env2 = self.declare(inner.name, env)
+                return lean, lambda x: (self.tr(body, env2, k) if x.text == lean else
+                                        f"let {lean} : {self.lean_type(it)} := {x.text}\n" + self.tr(body, env2, k))
+            if inner.k == "pwild":
+                return None, lambda x: self.tr(body, env, k)
+            return None, lambda x: self.bind_pat(inner, x, it, env, lambda env2: self.tr(body, env2, k))
+
+        def kv(v):
+            self.depth += 1
+            try:
+                n1, k1 = arm(ok_arm[0], ok_arm[1], st[1])
+                n2, k2 = arm(err_arm[0], err_arm[1], st[2])
+                return self.match_res(v, n1, k1, n2, k2)
+            finally:
+                self.depth -= 1
+        return self.tr(e.e, env, kv)
+
     def pat_cond(self, p, s, env):
         """condition (Prop text) under which integer / bool / enum pattern p matches the atom s; None = always"""
         if p.k in ("pwild", "pbind"):
@@ -2732,6 +3035,8 @@ class FnTrans:
             raise Refuse("match on a value of unknown type")
         if st[0] == "opt":
             return self.tr_match_opt(e, env, k)
+        if st[0] == "res":
+            return self.tr_match_res(e, env, k)
         if st[0] == "tuple":
             raise Refuse("match on a tuple")
         if st[0] == "adt" and self.gen.repr_kind(st) == "struct":
@@ -2984,7 +3289,7 @@ class Gen:
         return full
 
     # -- generic impls read at a concrete instantiation
-    def subst_type(self, t, subst, owner):
+    def subst_type(self, t, subst, owner, trait=None):
         """a parsed type with the type parameters (`Tz`), `Self`, associated types (`Tz::Offset`: the `type Offset = …`
         item of the impl for the concrete type) and generic structs (`DateTime<Tz>`) resolved"""
         k = t[0]
@@ -2998,13 +3303,29 @@ class Gen:
             return ("adt", owner)
         if k == "assoc":
             b = self.subst_type(t[1], subst, owner)
+            if b[0] == "adt" and t[1] == ("self",) and trait is not None and (b[1], trait, t[2]) in self.crate.assoc3:
+                # `Self::Err` inside `impl Trait for T`: the `type Err = …;` of that very impl
+                return self.subst_type(self.crate.assoc3[(b[1], trait, t[2])], {}, b[1])
+            ga = self.crate.adts.get(b[1], {}) if b[0] == "adt" else {}
+            if "gbase" in ga and t[1] == ("self",) and trait is not None:
+                # `Self::Err` inside `impl<Tz> Trait for DateTime<Tz>` read at an instantiation: the `type Err = …;`
+                # of the one impl of that trait whose header covers the instantiation
+                hits = [(self.match_impl(gi, ga["gargs"]), ty) for gi, ty in
+                        self.crate.assoc_g.get((ga["gbase"], trait, t[2]), [])]
+                hits = [(bd, ty) for bd, ty in hits if bd is not None]
+                if len(hits) == 1:
+                    return self.subst_type(hits[0][1], hits[0][0], b[1])
             if b[0] != "adt" or (b[1], t[2]) not in self.crate.assoc:
                 raise Refuse(f"associated type `{show_type(b)}::{t[2]}` is not defined in the translated files")
+            if self.crate.assoc[(b[1], t[2])] == ("ambiguous",):
+                raise Refuse(f"associated type `{show_type(b)}::{t[2]}` is defined differently by several impls")
             return self.subst_type(self.crate.assoc[(b[1], t[2])], {}, b[1])
         if k == "gen":
             return self.instantiate_adt(t[1], [self.subst_type(a, subst, owner) for a in t[2]], t[3])
         if k == "opt":
             return ("opt", self.subst_type(t[1], subst, owner))
+        if k == "res":
+            return ("res", self.subst_type(t[1], subst, owner, trait), self.subst_type(t[2], subst, owner, trait))
         if k == "tuple":
             return ("tuple", tuple(self.subst_type(x, subst, owner) for x in t[1]))
         if k == "array":
@@ -3049,9 +3370,10 @@ class Gen:
             return None
         return bind
 
-    def resolve_gfn(self, owner, name):
+    def resolve_gfn(self, owner, name, trait=None, targ=None):
         """function `name` of the instantiated generic struct `owner`: the impls `impl<…> Base<…>` whose header
-        covers the instantiation; inherent impls before trait impls (Rust's method lookup order)"""
+        covers the instantiation; inherent impls before trait impls (Rust's method lookup order).  With `trait` /
+        `targ`: the function of `impl<…> trait<targ> for Base<…>` only (a target / an operator names them)."""
         a = self.crate.adts[owner]
         hits = []
         for (b, tname, n), items in self.crate.gfns.items():
@@ -3060,6 +3382,10 @@ class Gen:
                     bind = self.match_impl(it.gimpl, a["gargs"])
                     if bind is not None:
                         hits.append((it, bind, tname))
+        nall = len(hits)
+        if trait is not None:
+            hits = [h for h in hits if h[2] == trait and
+                    (targ is None or [show_type(x) for x in h[0].gimpl["targs"]] == [targ])]
         pick = [h for h in hits if h[2] is None] or hits
         if not pick:
             raise NotFound(f"`{owner}::{name}` is not defined in the translated files")
@@ -3070,6 +3396,9 @@ class Gen:
         if key not in self.cache:
             ni = FnItem(it.mod, owner, tname, it.name, it.toks, it.sig_i, it.generic, it.rel)
             ni.tsubst = bind
+            if tname is not None and nall > 1 and it.gimpl["targs"] and all(x[0] == "adt" for x in it.gimpl["targs"]):
+                ni.targs = tuple(it.gimpl["targs"])
+                ni.multi = True
             self.cache[key] = ni
         return self.cache[key]
 
@@ -3089,6 +3418,8 @@ class Gen:
             return ("adt", owner)
         if t[0] == "opt":
             return ("opt", self.norm_type(t[1], owner))
+        if t[0] == "res":
+            return ("res", self.norm_type(t[1], owner), self.norm_type(t[2], owner))
         if t[0] == "tuple":
             return ("tuple", tuple(self.norm_type(x, owner) for x in t[1]))
         if t[0] == "array":
@@ -3107,6 +3438,9 @@ class Gen:
         if t[0] == "opt":
             x = self.lean_type(t[1])
             return "Option " + (x if " " not in x else f"({x})")
+        if t[0] == "res":
+            x, y = self.lean_type(t[1]), self.lean_type(t[2])
+            return "GenRt.Result " + (x if " " not in x else f"({x})") + " " + (y if " " not in y else f"({y})")
         if t[0] == "tuple":
             return " × ".join(("(" + y + ")") if " " in y else y for y in (self.lean_type(x) for x in t[1]))
         if t[0] == "array":
@@ -3347,6 +3681,13 @@ class Gen:
             raise Refuse(f"`{owner}::{name}`: `{owner}` is not a type of the translated files")
         if "gbase" in self.crate.adts[owner]:
             return self.resolve_gfn(owner, name)
+        if self.crate.adts[owner].get("builtin"):
+            if (owner, name) not in BUILTIN_FNS:
+                raise Refuse(f"`core::time::{owner}::{name}` is not built into the translator")
+            key = ("builtin", owner, name)
+            if key not in self.cache:
+                self.cache[key] = BuiltinItem(owner, name, BUILTIN_FNS[(owner, name)])
+            return self.cache[key]
         dflt = getattr(ctx, "default_of", None)
         if dflt and owner == ctx.owner:          # inside a trait's default method: trait methods first
             c = fns.get((owner, dflt, name), [])
@@ -3372,6 +3713,18 @@ class Gen:
             return self.specialise(x, owner, t)
         raise NotFound(f"`{owner}::{name}` is not defined in the translated files")
 
+    def resolve_op(self, owner, trait, name, rhs):
+        """the function `name` of the one `impl trait<rhs> for owner` (`impl trait for owner` when rhs = owner)"""
+        if rhs is None or rhs[0] != "adt" or owner not in self.crate.adts:
+            raise Refuse(f"operator of `{trait}` on {owner} with a right operand of type {show_type(rhs)}")
+        if "gbase" in self.crate.adts[owner]:
+            return self.resolve_gfn(owner, name, trait, rhs[1])
+        c = [x for x in self.crate.fns.get((owner, trait, name), [])
+             if [show_type(a) for a in x.targs] == [rhs[1]] or (not x.targs and rhs[1] == owner)]
+        if len(c) != 1:
+            raise Refuse(f"no unique `impl {trait}<{rhs[1]}> for {owner}` in the translated files")
+        return c[0]
+
     def specialise(self, item, owner, trait):
         """the default method `item` of `trait`, read with Self = owner"""
         key = ("spec", id(item), owner)
@@ -3386,10 +3739,17 @@ class Gen:
         if item.owner:
             parts.append(lean_ident(item.owner))
         if item.trait:
-            parts.append(item.trait)
+            sibs = [x for x in self.crate.fns.get((item.owner, item.trait, item.name), []) if x.mod == item.mod]
+            if item.targs and (len(sibs) > 1 or getattr(item, "multi", False)):
+                # one of several `impl Trait<A> for T`: the argument is part of the name (`Add_Duration`)
+                parts.append(item.trait + "_" + "_".join(lean_ident(show_type(a)) for a in item.targs))
+            else:
+                parts.append(item.trait)
         a = self.crate.adts.get(item.owner) if item.owner and not item.trait else None
         if a is not None and a["kind"] == "struct" and len(a["fields"]) > 1 and item.name in [f for f, _ in a["fields"]]:
             parts.append(item.name + "_fn")      # `T.f` is the projection of the generated structure
+        elif item.ginst:
+            parts.append(item.name + "_" + item.ginst)     # an instantiation of `fn f<T>`: `f_NaiveDateTime`
         else:
             parts.append(item.name)
         return ".".join(parts)
@@ -3417,7 +3777,24 @@ class Gen:
         info.mut_self = item.mut_self
         return info
 
+    def translate_builtin(self, item):
+        sp = item.spec
+        info = FnInfo()
+        info.item = item
+        info.has_self = sp["has_self"]
+        info.params = list(sp["params"])
+        info.ret = sp["ret"]
+        info.lean = f"{sp['mod']}.{item.owner}.{item.name}"
+        info.impure = sp["impure"]
+        rt = self.lean_type(sp["ret"])
+        binders = "".join(f" ({n} : {self.lean_type(t)})" for n, t in sp["params"])
+        info.text = (f"/-- `{item.rust_path()}` (the standard library's; built into the translator) -/\n"
+                     f"def {info.lean}{binders} : {'Res ' + rt if sp['impure'] else rt} :=\n{ind(sp['body'])}\n")
+        return info
+
     def translate(self, item):
+        if isinstance(item, BuiltinItem):
+            return self.translate_builtin(item)
         if item.generic:
             raise Refuse("generic function")
         params, has_self, ret, body = item.parse()
@@ -3466,6 +3843,7 @@ FILES = [
     ("src/datetime/mod.rs", "datetime"),
     ("src/offset/local/tz_info/mod.rs", "tz_info"),
     ("src/offset/local/tz_info/rule.rs", "tz_info_rule"),
+    ("src/round.rs", "round"),
 ]
 
 # (file, impl type | None, function)                      an inherent / free function
@@ -3539,6 +3917,25 @@ TARGETS = (
        ["with_year", "with_month", "with_month0", "with_day", "with_day0", "with_ordinal", "with_ordinal0"]]
     + [("src/naive/datetime/mod.rs", "NaiveDateTime", f, "Timelike") for f in
        ["with_hour", "with_minute", "with_second", "with_nanosecond"]]
+    + [("src/time_delta.rs", "TimeDelta", f) for f in ["from_std", "to_std"]]
+    + [("src/naive/time/mod.rs", "NaiveTime", "add", "Add<Duration>"),
+       ("src/naive/time/mod.rs", "NaiveTime", "sub", "Sub<Duration>"),
+       ("src/naive/time/mod.rs", "NaiveTime", "add", "Add<TimeDelta>"),
+       ("src/naive/time/mod.rs", "NaiveTime", "sub", "Sub<TimeDelta>"),
+       ("src/naive/time/mod.rs", "NaiveTime", "add", "Add<FixedOffset>"),
+       ("src/naive/time/mod.rs", "NaiveTime", "sub", "Sub<FixedOffset>")]
+    + [("src/naive/datetime/mod.rs", "NaiveDateTime", "add", "Add<Duration>"),
+       ("src/naive/datetime/mod.rs", "NaiveDateTime", "sub", "Sub<Duration>"),
+       ("src/naive/datetime/mod.rs", "NaiveDateTime", "add", "Add<TimeDelta>"),
+       ("src/naive/datetime/mod.rs", "NaiveDateTime", "sub", "Sub<TimeDelta>")]
+    + [("src/datetime/mod.rs", inst, f, t) for inst in ["DateTime<Utc>", "DateTime<FixedOffset>"]
+       for f, t in [("add", "Add<TimeDelta>"), ("sub", "Sub<TimeDelta>"), ("add", "Add<Duration>"),
+                    ("sub", "Sub<Duration>")]]
+    + [("src/round.rs", None, "span_for_digits")]
+    + [("src/round.rs", "NaiveDateTime", f, "DurationRound") for f in
+       ["duration_round", "duration_trunc", "duration_round_up"]]
+    + [("src/round.rs", "DateTime<FixedOffset>", f, "DurationRound") for f in
+       ["duration_round", "duration_trunc", "duration_round_up"]]
 )
 
 
@@ -3551,14 +3948,21 @@ def build(read):
             crate.scan_file(rel, mod, read(rel))
         except (Refuse, OSError) as ex:
             problems[rel] = f"cannot scan: {ex}"
+    for bn, ba in BUILTIN_ADTS.items():
+        if bn not in crate.adts and bn not in crate.gadts:
+            crate.adts[bn] = dict(ba)
     gen = Gen(crate)
     translated, refused, missing = [], [], []
     for tgt in TARGETS:
         rel, owner, name = tgt[0], tgt[1], tgt[2]
         mod = dict(FILES)[rel]
         label = f"{rel}: " + (f"{owner}::" if owner else "") + name
+        targ = None
+        if len(tgt) == 4 and "<" in tgt[3]:
+            targ = tgt[3][tgt[3].index("<") + 1:-1].strip()
+            tgt = tgt[:3] + (tgt[3][:tgt[3].index("<")],)
         if len(tgt) == 4:
-            label = f"{rel}: <{owner} as {tgt[3]}>::{name}"
+            label = f"{rel}: <{owner} as {tgt[3]}{'<' + targ + '>' if targ else ''}>::{name}"
         if len(tgt) > 4:
             label = f"{rel}: {tgt[3]}::{name} (Self = {tgt[4]})"
         if rel in problems:
@@ -3572,14 +3976,18 @@ def build(read):
                     continue
                 try:
                     ty = gen.instantiate_adt(base, [("adt", a.strip()) for a in args.split(",")])
-                    cands = [x for x in [gen.resolve_fn(ty[1], name, None)] if x.mod == mod]
+                    if len(tgt) == 4:
+                        cands = [x for x in [gen.resolve_gfn(ty[1], name, tgt[3], targ)] if x.mod == mod]
+                    else:
+                        cands = [x for x in [gen.resolve_fn(ty[1], name, None)] if x.mod == mod]
                 except NotFound:
                     cands = []
             elif len(tgt) > 4:
                 cands = [x for x in crate.fns.get((None, tgt[3], name), []) if x.mod == mod]
                 cands = [gen.specialise(x, tgt[4], tgt[3]) for x in cands]
             elif len(tgt) == 4:
-                cands = [x for x in crate.fns.get((owner, tgt[3], name), []) if x.mod == mod]
+                cands = [x for x in crate.fns.get((owner, tgt[3], name), []) if x.mod == mod
+                         and (targ is None or [show_type(a) for a in x.targs] == [targ])]
             else:
                 cands = [x for x in crate.fns.get((owner, None, name), []) if x.mod == mod]
             if not cands:
